@@ -4,6 +4,7 @@ from typing import Awaitable, Callable, Dict, List, Optional, Tuple, Type, Union
 
 import h2
 import h2.connection
+import h2.errors
 import h2.events
 import h2.exceptions
 import priority
@@ -228,6 +229,7 @@ class H2Protocol:
                 self.connection.send_headers(event.stream_id, event.headers)
                 await self._flush()
             elif isinstance(event, StreamClosed):
+                await self._reset_abandoned_response(event.stream_id)
                 await self._close_stream(event.stream_id)
                 idle = len(self.streams) == 0 or all(
                     stream.idle for stream in self.streams.values()
@@ -401,6 +403,31 @@ class H2Protocol:
             await self._create_stream(event)
             await self.streams[event.stream_id].handle(EndBody(stream_id=event.stream_id))
             self.keep_alive_requests += 1
+
+    async def _reset_abandoned_response(self, stream_id: int) -> None:
+        # The app has finished with a HTTP stream whose response was
+        # never completed (e.g. it errored after the response start),
+        # the client must be told rather than left waiting on an open
+        # stream that looks like a slow response.
+        buffer = self.stream_buffers.get(stream_id)
+        if (
+            buffer is not None
+            and not buffer._complete
+            and isinstance(self.streams.get(stream_id), HTTPStream)
+        ):
+            try:
+                self.connection.reset_stream(
+                    stream_id, error_code=h2.errors.ErrorCodes.INTERNAL_ERROR
+                )
+            except h2.exceptions.ProtocolError:
+                return  # Already closed or reset
+            await self._flush()
+            await buffer.close()
+            del self.stream_buffers[stream_id]
+            try:
+                self.priority.remove_stream(stream_id)
+            except priority.MissingStreamError:
+                pass
 
     async def _close_stream(self, stream_id: int) -> None:
         if stream_id in self.streams:
